@@ -1,10 +1,13 @@
 #!/usr/bin/env python3
 # jobs for units/codec_std.cpp (growable containers over the std models).  BOUNDED: element counts <= 3
 # (strings <= 6 characters) — the capacity of the verification models; labelled bounded, not counted as proof.
-types = [("vecu8", 7), ("vecu32", 16), ("vecpair", 18), ("str", 10), ("map", 16), ("umap", 16)]
+types = [("vecu8", 7), ("vecu32", 16), ("vecpair", 12), ("str", 10), ("map", 12), ("umap", 12)]
 out = ["cxxflags -Ispec/stdmodel"]
+HEAVY = ("map", "umap", "vecpair")
 def job(name, props, unwind, tier="quick"):
-    out.append("job sd_%s\n  props %s\n  harness h_%s\n  unwind %d bounded containers hold <= 3 elements (strings <= 6 characters): capacity of the std models\n  unwindset ReadPayload 6\n  tier %s\n  timeout 900\n" % (name, props, name, unwind, tier))
+    if any(name.endswith("_" + h) or ("_" + h + "_") in name for h in HEAVY):
+        tier = "thorough"   # minutes per job; the byte-counted containers stay in the quick tier
+    out.append("job sd_%s\n  props %s\n  harness h_%s\n  unwind %d bounded containers hold <= 3 elements (strings <= 6 characters): capacity of the std models\n  unwindset ReadPayload 10\n  tier %s\n  timeout 900\n" % (name, props, name, unwind, tier))
 for t, n in types:
     u = n + 2
     job("enc_%s" % t, "C03 C06", u)
